@@ -1,7 +1,7 @@
 use crate::tyme::eightchar::{ChildLimitInfo, EightChar};
 use crate::tyme::lunar::LunarHour;
 use crate::tyme::sixtycycle::SixtyCycleHour;
-use crate::tyme::solar::{SolarMonth, SolarTerm, SolarTime};
+use crate::tyme::solar::{SolarDay, SolarMonth, SolarTerm, SolarTime};
 use crate::tyme::Tyme;
 
 /// 童限计算接口
@@ -75,18 +75,19 @@ impl AbstractChildLimitProvider {
     d += h / 24;
     h %= 24;
 
-    let mut sm: SolarMonth = SolarMonth::from_ym(birth_time.get_year() + add_year as isize, birth_time.get_month()).next(add_month as isize);
+    let sm: SolarMonth = SolarMonth::from_ym(birth_time.get_year() + add_year as isize, birth_time.get_month()).next(add_month as isize);
 
-    let mut dc: usize = sm.get_day_count();
-    while d > dc {
-      d -= dc;
-      sm = sm.next(1);
-      dc = sm.get_day_count();
+    // 推移后的月份中与出生日同号的那一天（该号不存在时取它之前最近的一天），再按天数向后推移，
+    // 这样跨月、跨年以及1582年10月缺失的10天都按实际日期计算
+    let mut k: usize = birth_time.get_day();
+    while SolarDay::new(sm.get_year(), sm.get_month(), k).is_err() {
+      k -= 1;
     }
+    let end_day: SolarDay = SolarDay::from_ymd(sm.get_year(), sm.get_month(), k).next((d - k) as isize);
 
     ChildLimitInfo {
       start_time: birth_time,
-      end_time: SolarTime::from_ymd_hms(sm.get_year(), sm.get_month(), d, h, mi, s),
+      end_time: SolarTime::from_ymd_hms(end_day.get_year(), end_day.get_month(), end_day.get_day(), h, mi, s),
       year_count: add_year,
       month_count: add_month,
       day_count: add_day,
